@@ -77,3 +77,85 @@ func foreignExtendCase(c *core.Ctx, rules func(*opc.Package) []opc.Problem) *cor
 	res.Sample = map[string]interface{}{"case": c.Case, "foreign_features": f.Features, "foreign_rel_ids": f.RelIDs, "ops": tail(s.Log, 30)}
 	return res
 }
+
+// renderSiblingsCase: one base document with k relationships is loaded as a template and rendered several times; the
+// renders (and the base) are then extended alternately with relationship-creating calls and saved only at the end,
+// so that state shared between a template and its renders (or between two renders) shows up as a rule violation in
+// one of the saved packages.
+func renderSiblingsCase(c *core.Ctx, rules func(*opc.Package) []opc.Problem, weights map[string]int) *core.Result {
+	res := &core.Result{}
+	document.VerifResetGlobals()
+	r := caseRng(c)
+	base := NewScript(r, false, c.WorkDir)
+	base.NoReopen = true
+	base.Weights = map[string]int{"AddImageFromData": 20, "Header/Footer": 10, "AddParagraph": 6, "AddTable": 3, "Table.content": 6, "Reopen": 0, "RenderAsTemplate": 0, "AddImageFromFile": 2, "Notes": 0, "Lists": 0}
+	base.Run(r.Range(0, 18), nil)
+	if base.Panic != nil {
+		res.Count("api_panics(document quarantined)", 1)
+		return res
+	}
+	base.Doc.AddParagraph("{{x}} {{name}}")
+	eng := document.NewTemplateEngine()
+	if _, err := eng.LoadTemplateFromDocument("base", base.Doc); err != nil {
+		res.Count("template_load_errors", 1)
+		return res
+	}
+	n := r.Range(2, 3)
+	scripts := []*Script{}
+	for i := 0; i < n; i++ {
+		data := document.NewTemplateData()
+		data.SetVariable("x", fmt.Sprintf("render%d", i))
+		data.SetVariable("name", gen.SafeString(r))
+		var d *document.Document
+		var err error
+		if cg := core.Catch(func() {
+			if r.Bool() {
+				d, err = eng.RenderTemplateToDocument("base", data)
+			} else {
+				d, err = eng.RenderToDocument("base", data)
+			}
+		}); cg != nil || err != nil || d == nil || d.Body == nil {
+			res.Count("render_failures", 1)
+			return res
+		}
+		s := NewScript(r, false, c.WorkDir)
+		s.NoReopen = true
+		s.NoLists = true
+		s.adopt(d)
+		s.serial = 100 * (i + 1) // distinct pictures per render
+		s.Weights = weights
+		scripts = append(scripts, s)
+	}
+	rounds := r.Range(1, 6)
+	for k := 0; k < rounds; k++ {
+		for _, s := range scripts {
+			s.Run(1, nil)
+			if s.Panic != nil {
+				res.Count("api_panics(document quarantined)", 1)
+				return res
+			}
+		}
+	}
+	var sig []string
+	for i, s := range append(scripts, base) {
+		pkgs, _ := savedPackages(res, s.Doc, c.WorkDir, fmt.Sprintf("rs%d-%d", c.Case, i))
+		who := fmt.Sprintf("render %d", i)
+		if s == base {
+			who = "template base document"
+		}
+		for _, p := range pkgs {
+			probs := rules(p)
+			for j := range probs {
+				probs[j].Key += "/render-siblings"
+			}
+			addProblems(res, probs, who+" ; ops: "+strings.Join(tail(s.Log, 20), " "))
+			statsOf(res, p)
+		}
+		sig = append(sig, s.Sig())
+	}
+	res.Count("render_sibling_groups", 1)
+	res.Nontrivial = res.Stats["parts_parsed"] > 0 && rounds > 0
+	res.Sig = "siblings:" + strings.Join(sig, "|")
+	res.Sample = map[string]interface{}{"case": c.Case, "renders": n, "base_ops": tail(base.Log, 12), "render0_ops": tail(scripts[0].Log, 8), "render1_ops": tail(scripts[1].Log, 8)}
+	return res
+}
